@@ -5,12 +5,16 @@ CONSTANTS
   Targets <- TargS
   TsTargets <- TargS
   MaxTs = 3
-  PublicQueue = FALSE
+  MaxSweeps = 2
+  MaxQueued = 3
+  PublicQueue = TRUE
+  DtChangeQueued = FALSE
+  FixQ = FALSE
   LeftRenormSite = 0
   FlipWrap = TRUE
   Ls <- LsAll
   Record = TRUE
-  SimLen = 3
+  SimLen = 4
 INVARIANT TimeExact
 INVARIANT ProductFormula
 INVARIANT EmitJson
